@@ -439,6 +439,9 @@ META = (META[0] + ' FIRSTREAD and IT4i over the view searches the string forward
 META = (META[0] + ' ALIASSTR (an argument that may refer to the string itself is never read after the string has been modified on that path).', META[1])
 
 
+META = (META[0] + ' FIELDCAST (a value stored into the size member is converted to that member type, not to a fixed narrower type; controls in fixtures/extra10_pos.hpp).', META[1])
+
+
 def run(chk, tier):
     db = D.load("checks")
     from ..rules import params as _PR
@@ -479,6 +482,10 @@ def run(chk, tier):
     from ..rules import extra8 as _X8
     if _X8.traits_order_area(chk, db, ['_string/basic_inplace_string.hpp']) < 8:      # TRAITSORD
         chk.analysis_broken('TRAITSORD: fewer than 8 ordering operations of basic_inplace_string found (floor 8)')
+    from ..rules import extra10 as _X10
+    if _X10.field_cast_area(chk, db, ['_string/']) < 1:      # FIELDCAST
+        chk.analysis_broken('FIELDCAST: no store into the size member of the string found (floor 1)')
+    _X10.positive_controls(chk, D, ('FIELDCAST',))
     from ..rules import exits as _EXW
     if _EXW.pos_wrap_area(chk, db, ['_string/', '_strings/', '_string_view/']) < 3:      # WRAP
         chk.analysis_broken('WRAP: fewer than 3 members that add to a position argument (floor 3)')
